@@ -521,6 +521,9 @@ func families() []family {
 			rjson.StdLibCompatibleStringBytes(docs[0], nil)
 			rjson.UnescapeStringContent(docs[1], nil)
 		}},
+		{name: "F5 deep object/array alternation through ReadValue", gen: func(n int) [][]byte {
+			return [][]byte{[]byte(strings.Repeat(`{"children":[`, n) + "1" + strings.Repeat("]}", n)), nested(n, "[{", "1", true), nested(n, "{[", "1", true)}
+		}, run: readAll},
 		{name: "deep arrays through ReadValue", gen: func(n int) [][]byte { return one(string(nested(n, "[", "1", true))) }, run: readAll},
 		{name: "wide flat array through ReadValue", gen: func(n int) [][]byte { return one(arrN(n * 4)) }, run: readAll},
 		{name: "many strings with escapes in one array", gen: func(n int) [][]byte { return one("[" + strings.Repeat(`"a\nbéc",`, n) + `""]`) }, run: readAll},
